@@ -871,6 +871,106 @@ def histories(draw, groups=("core", "maint", "branch"), max_steps=40, names=BVVA
     return out
 
 
+@st.composite
+def scenario_exhaust_then_bridge(draw, exact_kw=None):
+    """Two variables are constrained separately and each is enumerated completely (eval with a large n, or min/max), so that
+    caches hold "all values" of each; then a constraint over BOTH arrives (a composite has to combine its children; a plain
+    solver has to drop what it cached) and the same queries are asked again -- on the solver, after simplify / split, and on a
+    branch taken before the bridging constraint."""
+    x, y = [_v(n) for n in draw(st.permutations(BVVARS))[:2]]
+    out = []
+
+    def narrow(v):
+        k = draw(st.integers(0, 3))
+        c = _c(draw(st.sampled_from(CONSTS)))
+        if k == 0:
+            return ("ule", v, c)
+        if k == 1:
+            return ("or", ("eq", v, c), ("eq", v, _c(draw(st.sampled_from(CONSTS)))))
+        if k == 2:
+            return ("eq", ("bvand", v, _c(draw(st.sampled_from((3, 6, 12, 9))))), _c(draw(st.sampled_from((0, 1, 2, 4, 8)))))
+        return (draw(st.sampled_from(("ugt", "slt", "ne", "sge"))), v, c)
+
+    for v in (x, y):
+        for _ in range(draw(st.integers(0, 2))):
+            out.append({"op": "add", "s": 0, "cs": [narrow(v)], "as_list": draw(st.booleans())})
+
+    def exhaust(v, s_):
+        k = draw(st.integers(0, 4))
+        if k <= 1:
+            return {"op": "eval", "s": s_, "e": v, "n": draw(st.sampled_from((17, 300))), "extra": []}
+        if k == 2:
+            return {"op": "batch", "s": s_, "es": [v], "n": 300, "extra": []}
+        return {"op": draw(st.sampled_from(("min", "max"))), "s": s_, "e": v, "signed": draw(st.booleans()), "extra": []}
+
+    probes = [exhaust(x, 0), exhaust(y, 0)] + ([exhaust(draw(st.sampled_from((x, y))), 0)] if draw(st.booleans()) else [])
+    out += probes
+    branched = draw(st.integers(0, 2)) == 0
+    if branched:
+        out.append({"op": "branch", "s": 0})
+    k = draw(st.integers(0, 4))
+    if k == 0:
+        bridge = (draw(st.sampled_from(ir.BV_CMP)), x, y)
+    elif k == 1:
+        bridge = (draw(st.sampled_from(("ule", "eq", "ugt", "slt"))), ("bvadd", x, y), _c(draw(st.sampled_from(CONSTS))))
+    elif k == 2:
+        bridge = ("or", ("ult", x, y), ("eq", x, _c(draw(st.sampled_from(CONSTS)))))
+    elif k == 3:
+        bridge = ("ne", ("bvxor", x, y), _c(draw(st.sampled_from(CONSTS))))
+    else:
+        bridge = draw(constraints((x[1], y[1])))
+    out.append({"op": "add", "s": 0, "cs": [bridge], "as_list": draw(st.booleans())})
+    if draw(st.integers(0, 3)) == 0:
+        out.append({"op": draw(st.sampled_from(("simplify", "split", "downsize"))), "s": 0})
+    for t in ([0, -1] if branched else [0]):
+        for q in probes:
+            out.append({**q, "s": t})
+        out.append({"op": "sat", "s": t, "extra": []})
+        out.append({"op": "batch", "s": t, "es": [x, y], "n": 300, "extra": []})
+    if exact_kw is not None:
+        out = [({**s_, "exact": draw(st.sampled_from(exact_kw))} if s_["op"] not in ("add", "branch", "simplify", "split", "downsize") else s_) for s_ in out]
+    return out
+
+
+@st.composite
+def scenario_extras_do_not_stick(draw, exact_kw=None):
+    """Queries with extra constraints (refutable ones included) followed by the same queries without them, on the solver and on a
+    branch: nothing of an extra constraint may outlive its query."""
+    names = tuple(draw(st.permutations(BVVARS))[: draw(st.integers(1, 2))])
+    x = _v(names[0])
+    out = []
+    for _ in range(draw(st.integers(1, 3))):
+        out.append({"op": "add", "s": 0, "cs": [draw(st.one_of(constraints(names), st.tuples(st.sampled_from(("ule", "ult", "uge")), st.just(x), st.sampled_from(CONSTS).map(_c))))], "as_list": False})
+    for _round in range(draw(st.integers(1, 3))):
+        k = draw(st.integers(0, 3))
+        if k == 0:
+            extra = [("eq", x, _c(draw(st.sampled_from(CONSTS))))]
+        elif k == 1:
+            extra = [("ugt", x, _c(14)), ("ult", x, _c(2))]  # refutable on its own
+        elif k == 2:
+            extra = [draw(constraints(names))]
+        else:
+            extra = [("bconst", False)]
+        q = draw(st.sampled_from(("sat", "sat", "eval", "min", "max", "solution")))
+        if q == "sat":
+            step = {"op": "sat", "s": 0, "extra": extra}
+        elif q == "eval":
+            step = {"op": "eval", "s": 0, "e": x, "n": draw(st.sampled_from((1, 3, 17))), "extra": extra}
+        elif q == "solution":
+            step = {"op": "solution", "s": 0, "e": x, "v": draw(st.sampled_from(CONSTS)), "v_as_bvv": False, "extra": extra}
+        else:
+            step = {"op": q, "s": 0, "e": x, "signed": draw(st.booleans()), "extra": extra}
+        out.append(step)
+        if draw(st.integers(0, 2)) == 0:
+            out.append({"op": "branch", "s": 0})
+        for t in (0, -1):
+            out.append({**step, "extra": [], "s": t})
+            out.append({"op": "sat", "s": t, "extra": []})
+    if exact_kw is not None:
+        out = [({**s_, "exact": draw(st.sampled_from(exact_kw))} if s_["op"] not in ("add", "branch") else s_) for s_ in out]
+    return out
+
+
 def shrink_history(frontend, history, fp, deadline, reuse=False, approx=False, run=None, is_known=None):
     """ddmin over the steps; a candidate is kept only if it still fails with the same fingerprint *and* that failure is
     not an instance of an open known finding (otherwise the shrinker would slide from a new defect into a listed one)."""
